@@ -818,12 +818,15 @@ func main() {
 	faults := map[string]int64{}
 	probes := map[string]int64{}
 	other := map[string]int64{}
+	sitesHit := map[string]bool{}
 	for k, v := range counters {
 		switch {
 		case strings.HasPrefix(k, "net.") || strings.HasPrefix(k, "fault."):
 			faults[k] = v
 		case strings.HasPrefix(k, "probe."):
 			probes[k] = v
+		case strings.HasPrefix(k, "site."):
+			sitesHit[strings.TrimPrefix(k, "site.")] = true
 		default:
 			other[k] = v
 		}
@@ -852,6 +855,7 @@ func main() {
 			"nondeterministic_replays": nondet,
 			"determinism_probe":        map[string]any{"seeds": probeSeeds, "processes_per_seed": 3, "gomaxprocs": []int{1, 4, 16}, "identical": probeSame, "different": probeDiff},
 			"violation_signatures":     order,
+			"library_statements":       statementReach(sitesHit),
 			"harness_trouble":          len(troubles),
 		},
 		"assumptions": []string{
@@ -953,4 +957,76 @@ func isFlagSet(name string) bool {
 		}
 	})
 	return set
+}
+
+// statementReach summarises which statements of the instrumented library packages the runs of this
+// check executed: sites.txt (written by simbuild) lists every statement that got a Step call, the
+// workers report the ones their processes reached. Per file: reached / instrumented, and the line
+// numbers never reached (as ranges), so that a reader sees what this check's verdict says nothing about.
+func statementReach(hit map[string]bool) map[string]any {
+	b, err := os.ReadFile(filepath.Join(scratch, "sites.txt"))
+	if err != nil {
+		return map[string]any{"measured": false}
+	}
+	type fileInfo struct {
+		total, reached int
+		missed         []int
+	}
+	files := map[string]*fileInfo{}
+	seen := map[string]bool{}
+	total, reached := 0, 0
+	for _, ln := range strings.Split(strings.TrimSpace(string(b)), "\n") {
+		if ln == "" || seen[ln] {
+			continue
+		}
+		seen[ln] = true
+		i := strings.LastIndex(ln, ":")
+		if i < 0 {
+			continue
+		}
+		f := ln[:i]
+		n, _ := strconv.Atoi(ln[i+1:])
+		fi := files[f]
+		if fi == nil {
+			fi = &fileInfo{}
+			files[f] = fi
+		}
+		fi.total++
+		total++
+		if hit[ln] {
+			fi.reached++
+			reached++
+		} else {
+			fi.missed = append(fi.missed, n)
+		}
+	}
+	per := map[string]any{}
+	for f, fi := range files {
+		if fi.reached == 0 {
+			per[f] = map[string]any{"instrumented": fi.total, "reached": 0}
+			continue
+		}
+		sort.Ints(fi.missed)
+		var rs []string
+		for i := 0; i < len(fi.missed); {
+			j := i
+			for j+1 < len(fi.missed) && fi.missed[j+1] <= fi.missed[j]+1 {
+				j++
+			}
+			if j == i {
+				rs = append(rs, strconv.Itoa(fi.missed[i]))
+			} else {
+				rs = append(rs, fmt.Sprintf("%d-%d", fi.missed[i], fi.missed[j]))
+			}
+			i = j + 1
+		}
+		per[f] = map[string]any{"instrumented": fi.total, "reached": fi.reached, "lines_not_reached": strings.Join(rs, ",")}
+	}
+	return map[string]any{
+		"measured":     true,
+		"measure":      "statements (lines carrying a scheduling point) of pkg/collector, pkg/exporter, pkg/intermediate, pkg/kafka/producer and cmd/collector executed by at least one run of this check, all layers; pkg/entities, pkg/registry and pkg/util are not instrumented and not counted",
+		"instrumented": total,
+		"reached":      reached,
+		"per_file":     per,
+	}
 }
